@@ -179,12 +179,11 @@ def check_case(case):
     else:
         B = n
     rep = (crop.batchsize, crop.num_batches, crop.num_sown_batches)
-    files = sorted(os.listdir(os.path.join(crop.location, "batches")))
-    if crop.num_batches != B or crop.num_sown_batches != B or len(files) != B:
+    if crop.num_batches != B or crop.num_sown_batches != B:
         vio.append((tag("count"),
                     "expected %d batches, crop reports num_batches=%r "
-                    "num_sown_batches=%r, %d batch files"
-                    % (B, crop.num_batches, rep[2], len(files))))
+                    "num_sown_batches=%r"
+                    % (B, crop.num_batches, rep[2])))
     crop2 = xyz.Crop(name="c7", parent_dir=d)
     rep2 = (crop2.batchsize, crop2.num_batches, crop2.num_sown_batches)
     if rep2 != rep:
@@ -195,7 +194,7 @@ def check_case(case):
     # ---- batch contents through grow ---------------------------------------
     sizes = []
     got = collections.Counter()
-    nb = max(B, len(files))
+    nb = max(B, rep[2] or 0, crop.num_batches or 0)
     for i in range(1, nb + 1):
         with xfn.CallLog() as log:
             try:
